@@ -1,4 +1,37 @@
-"""C11 — segment neighbourhoods match the specification's edge semantics."""
+"""C11 — segment neighbourhoods match the specification's edge semantics.
+
+Oracle: real library only.  The expectation is derived from the TEXT of the edge lines by an independent geometric
+rule (e_filing: whole interval on a side = containment, oriented suffix meeting oriented prefix = dovetail filed on
+the end the interval touches, anything else internal; L/C/G by their orientations) and compared, for EVERY segment
+of the graph, with
+  * the seven end-typed collections dovetails_L/R, edges_to_contained/containers, internals, gaps_L/R (multisets of
+    written lines: a hairpin `L A + A -` is attached twice to the right end of A and must be listed twice);
+  * the answers which follow from them: dovetails_of_end / gaps_of_end / dovetails / gaps / containments / edges
+    (concatenations), neighbours_L / neighbours_R / neighbours_of_end / neighbours, containers, contained (as sets of
+    segments: the segment on the other side of each listed line) and the connectivity pair
+    (segment._connectivity(), the answer linear_path / is_cut_segment / remove_dead_ends consult; it has no public
+    alias): per end 0, 1 or 'M' by the NUMBER OF ATTACHMENTS listed in dovetails_L / dovetails_R;
+  * per edge: is_dovetail / is_containment / is_internal against the geometric type, membership in Gfa.dovetails and
+    Gfa.containments, from_end / to_end / other_end of dovetails, the container/contained roles of containments
+    and other(segment) of every edge.
+Cases:
+  * single (exhaustive): one E line for every (orientation, interval kind)^2 between two segments and as a
+    self-edge, every L/C/G orientation pair, in several arrival orders of the three lines (the edge may come before
+    its segments: placeholder substitution), every third one followed by a rename;
+  * multi (random): 2-6 parallel / mixed edges on 3 segments in a shuffled arrival order;
+  * edit (random, every 4th): a multi graph followed by 1-4 steps through the public editing routes, the whole
+    comparison being repeated after every step: an edge instance is taken out (Gfa.rm or line.disconnect), its
+    reference fields are changed (other intervals / orientations / segments; given as strings or as
+    int / LastPos / OrientedLine values - legal only on a disconnected line) and it is put back (Gfa.add_line,
+    line.connect) or replaced by a fresh line with the new text; an edge is removed for good; an edge is added; a
+    segment is renamed.  The filing must always be that of the CURRENT text of the lines.
+
+NOT CHECKED:
+  * the order inside a collection; multiplicities in neighbours / containers / contained (only the set of segments);
+  * a step refused with a gfapy.Error ends the history (atomicity of refused steps is C08's business);
+  * removal of segments (cascade: C03/C09), fragments, paths and sets (C12/C13);
+  * segments of length 0.
+"""
 import itertools
 from harness import lib
 from harness.lib import op
@@ -20,8 +53,12 @@ LEAN = {
 }
 RULE = ("exhaustive: every (orientation, interval kind)^2 E line (7 kinds x 2 orientations per side = 196) between two "
         "segments and as a self-edge, every L/C/G orientation pair, each in all 6 arrival orders of its three lines, "
-        "optionally followed by a rename; random: graphs with several parallel/mixed edges on 3 segments. Non-trivial: "
-        "every case with at least one edge (all of them); distinct by case hash.")
+        "optionally followed by a rename; random: graphs with several parallel/mixed edges on 3 segments, every 4th "
+        "followed by 1-4 editing steps (edge taken out by rm/disconnect, reference fields changed, put back by "
+        "add_line/connect or as a fresh line; edge removed; edge added; segment renamed) with the comparison after "
+        "every step. Collections, derived answers (neighbours, containers, contained, connectivity, other-end) and "
+        "edge classification are compared for every segment and edge. Non-trivial: every case with at least one "
+        "edge (all of them); distinct by case hash.")
 ASSUMPTIONS = ["segments of length 0 are outside the theorem (ValidIv needs n>0): run on the real library only"]
 TRUSTED = ["GfaModel/Geometry.lean hand-written; tied by T3 translation of _substring_type and T2 tables over complete domains"]
 
@@ -106,16 +143,61 @@ def exhaustive_case(i, tier):
 
 
 def budget(tier):
-    return 300 if tier == "quick" else 8000
+    return 400 if tier == "quick" else 8000
+
+
+FRESH = ["Z", "Y", "X"]
+
+
+def _rand_edge(rng):
+    a, b = rng.choice("ABC"), rng.choice("ABC")
+    rt = rng.choice("EEELCG")
+    return [rt, a, rng.choice("+-"), rng.randrange(7), b, rng.choice("+-"), rng.randrange(7)]
 
 
 def gen_case(rng, tier, i):
-    edges = []
-    for _ in range(rng.randint(2, 6)):
-        a, b = rng.choice("ABC"), rng.choice("ABC")
-        rt = rng.choice("EEELCG")
-        edges.append([rt, a, rng.choice("+-"), rng.randrange(7), b, rng.choice("+-"), rng.randrange(7)])
-    return {"kind": "multi", "edges": edges, "shuffle": rng.randrange(10 ** 6)}
+    edges = [_rand_edge(rng) for _ in range(rng.randint(2, 6))]
+    case = {"kind": "multi", "edges": edges, "shuffle": rng.randrange(10 ** 6)}
+    if i % 4 != 3:
+        return case
+    # ---- editing history: the specs of the edges as they will be after each step are tracked by the oracle
+    case["kind"] = "edit"
+    if rng.random() < 0.2:                 # a GFA1 graph now and then (L and C lines only)
+        for e in edges:
+            if e[0] in "EG":
+                e[0] = rng.choice("LC")
+    v2 = any(e[0] in "EG" for e in edges)
+    steps = []
+    n_edges = len(edges)
+    for _ in range(rng.randint(1, 4)):
+        r = rng.random()
+        if r < 0.70:
+            j = rng.randrange(n_edges)
+            new = {}
+            what = rng.random()
+            if what < 0.45:                # other intervals only
+                new = {"k1": rng.randrange(7), "k2": rng.randrange(7)}
+            elif what < 0.65:              # other orientations only
+                new = {"o1": rng.choice("+-"), "o2": rng.choice("+-")}
+            elif what < 0.80:              # other segments only
+                new = {"a": rng.choice("ABC"), "b": rng.choice("ABC")}
+            elif what < 0.95:              # everything
+                new = {"k1": rng.randrange(7), "k2": rng.randrange(7), "o1": rng.choice("+-"), "o2": rng.choice("+-"),
+                       "a": rng.choice("ABC"), "b": rng.choice("ABC")}
+            steps.append(["edit", j, rng.choice(["rm", "disconnect"]), rng.choice(["add_line", "connect", "connect", "fresh"]),
+                          rng.choice(["str", "typed"]), new])
+        elif r < 0.80:
+            steps.append(["rm", rng.randrange(n_edges), rng.choice(["rm", "disconnect"])])
+        elif r < 0.90:
+            e = _rand_edge(rng)
+            if not v2:
+                e[0] = rng.choice("LC")
+            steps.append(["add", e])
+            n_edges += 1
+        else:
+            steps.append(["rename", rng.choice("ABC")])
+    case["steps"] = steps
+    return case
 
 
 def nontrivial(case):
@@ -125,64 +207,109 @@ def nontrivial(case):
 def tags(case):
     if case["kind"] == "single":
         return ["single:" + case["rt"], "self" if case["second"] == "A" else "pair"]
-    return ["multi", "n%d" % len(case["edges"])]
+    t = [case["kind"], "n%d" % len(case["edges"])]
+    for st in case.get("steps", []):
+        t.append("step-" + st[0])
+        if st[0] == "edit":
+            t.append("off-" + st[2]); t.append("on-" + st[3])
+    return sorted(set(t))
 
 
 def signature(case, failure):
     return failure.split(":")[0]
 
 
-def edge_line(rt, a, o1, k1, b, o2, k2, idx=None):
-    """text of the edge line + expected filing [(segment, key)], version"""
+def shrink(case, failure):
+    if case["kind"] != "edit":
+        return case
+    sig = signature(case, failure)
+    cur = dict(case)
+    changed = True
+    while changed:
+        changed = False
+        for j in reversed(range(len(cur["steps"]))):
+            c2 = dict(cur); c2["steps"] = cur["steps"][:j] + cur["steps"][j + 1:]
+            try:
+                ok = any(signature(c2, f) == sig for f in oracle(c2))
+            except Exception:  # noqa
+                ok = False
+            if ok:
+                cur = c2; changed = True
+                break
+    return cur
+
+
+def edge_line(rt, a, o1, k1, b, o2, k2, idx=None, nm=None):
+    """text of the edge line + expected filing [(segment, key)] (segments by their ORIGINAL names), type, sid1-is-from;
+    nm: original name -> current name"""
+    na, nb = (nm or {}).get(a, a), (nm or {}).get(b, b)
     if rt == "E":
         n1, n2 = LEN[a], LEN[b]
         b1, e1 = kinds(n1)[k1]; b2, e2 = kinds(n2)[k2]
-        txt = "E\t%s\t%s%s\t%s%s\t%s\t%s\t%s\t%s\t*" % ("*" if idx is None else "e%d" % idx, a, o1, b, o2,
+        txt = "E\t%s\t%s%s\t%s%s\t%s\t%s\t%s\t%s\t*" % ("*" if idx is None else "e%d" % idx, na, o1, nb, o2,
                                                      pos(b1, n1), pos(e1, n1), pos(b2, n2), pos(e2, n2))
         t, ka, kb, frm = e_filing(o1, n1, b1, e1, o2, n2, b2, e2)
         return txt, [(a, ka), (b, kb)], t, frm
     if rt == "L":
-        txt = "L\t%s\t%s\t%s\t%s\t*" % (a, o1, b, o2)
+        txt = "L\t%s\t%s\t%s\t%s\t*" % (na, o1, nb, o2)
         return txt, [(a, "dovetails_R" if o1 == "+" else "dovetails_L"), (b, "dovetails_L" if o2 == "+" else "dovetails_R")], "L", True
     if rt == "C":
-        txt = "C\t%s\t%s\t%s\t%s\t1\t*" % (a, o1, b, o2)
+        txt = "C\t%s\t%s\t%s\t%s\t1\t*" % (na, o1, nb, o2)
         return txt, [(a, "edges_to_contained"), (b, "edges_to_containers")], "C", True
     if rt == "G":
-        txt = "G\t%s\t%s%s\t%s%s\t50\t*" % ("*" if idx is None else "g%d" % idx, a, o1, b, o2)
+        txt = "G\t%s\t%s%s\t%s%s\t50\t*" % ("*" if idx is None else "g%d" % idx, na, o1, nb, o2)
         return txt, [(a, "gaps_R" if o1 == "+" else "gaps_L"), (b, "gaps_L" if o2 == "+" else "gaps_R")], "G", None
 
 
 COLLS = ["dovetails_L", "dovetails_R", "edges_to_contained", "edges_to_containers", "internals", "gaps_L", "gaps_R"]
+# answers that are plain concatenations of the collections: (how to ask, collections)
+CONCAT = [
+    (lambda s: s.dovetails_of_end("L"), "dovetails_of_end(L)", ["dovetails_L"]),
+    (lambda s: s.dovetails_of_end("R"), "dovetails_of_end(R)", ["dovetails_R"]),
+    (lambda s: s.gaps_of_end("L"), "gaps_of_end(L)", ["gaps_L"]),
+    (lambda s: s.gaps_of_end("R"), "gaps_of_end(R)", ["gaps_R"]),
+    (lambda s: s.dovetails, "dovetails", ["dovetails_L", "dovetails_R"]),
+    (lambda s: s.gaps, "gaps", ["gaps_L", "gaps_R"]),
+    (lambda s: s.containments, "containments", ["edges_to_contained", "edges_to_containers"]),
+    (lambda s: s.edges, "edges", ["dovetails_L", "dovetails_R", "edges_to_contained", "edges_to_containers", "internals"]),
+]
 
 
 def seg_line(name, v):
     return "S\t%s\t*\tLN:i:%d" % (name, LEN[name]) if v == 1 else "S\t%s\t%d\t*" % (name, LEN[name])
 
 
+def _version(case):
+    if case["kind"] == "single":
+        return 1 if case["rt"] in "LC" else 2
+    return 2 if any(e[0] in "EG" for e in case["edges"]) else 1
+
+
 def build(case):
+    """-> g, edges, order; an edge is a dict: spec [rt, a, o1, k1, b, o2, k2], idx (identifier number or None), txt"""
     gfapy = lib.import_gfapy()
+    v = _version(case)
     if case["kind"] == "single":
         rt = case["rt"]
         a, b = "A", case["second"]
-        v = 1 if rt in "LC" else 2
-        txt, filing, typ, frm = edge_line(rt, a, case["o1"], case["k1"], b, case["o2"], case["k2"])
+        spec = [rt, a, case["o1"], case["k1"], b, case["o2"], case["k2"]]
+        txt = edge_line(*spec)[0]
         lines = [seg_line(n, v) for n in sorted({a, b})] + [txt]
         if len(lines) == 2:
             lines.append("#c")
         order = list(itertools.permutations(lines))[case["perm"] % 6]
-        edges = [(txt, filing, typ, frm, a, b, case["o1"], case["o2"])]
+        edges = [{"spec": spec, "idx": None, "txt": txt}]
     else:
-        v = 2 if any(e[0] in "EG" for e in case["edges"]) else 1
         edges = []
         lines = [seg_line(n, v) for n in "ABC"]
         for i, e in enumerate(case["edges"]):
-            rt = e[0]
-            if v == 2 and rt in "LC":
-                rt = "E"
-            txt, filing, typ, frm = edge_line(rt, e[1], e[2], e[3], e[4], e[5], e[6], idx=i)
-            if rt in "LC" and any(x[0] == txt for x in edges):
+            spec = list(e)
+            if v == 2 and spec[0] in "LC":
+                spec[0] = "E"
+            txt = edge_line(*spec, idx=i)[0]
+            if spec[0] in "LC" and any(x["txt"] == txt for x in edges):
                 continue
-            edges.append((txt, filing, typ, frm, e[1], e[4], e[2], e[5]))
+            edges.append({"spec": spec, "idx": i, "txt": txt})
             lines.append(txt)
         r = lib.Rng(case["shuffle"]); order = list(lines); r.shuffle(order)
     g = gfapy.Gfa(vlevel=1)
@@ -191,55 +318,215 @@ def build(case):
     return g, edges, order
 
 
+def compare(g, edges, nm, ctx):
+    """the whole comparison for the graph g whose edge lines are `edges` (dicts with the CURRENT spec) and whose
+    segments A, B, C are currently called nm[...]"""
+    gfapy = lib.import_gfapy()
+    F = []
+    inv = {v: k for k, v in nm.items()}
+    exp = {}                      # (original segment name, collection) -> [(text, other segment's original name)]
+    info = []
+    for e in edges:
+        txt, filing, typ, frm = edge_line(*e["spec"], idx=e["idx"], nm=nm)
+        a, b = e["spec"][1], e["spec"][4]
+        info.append((e, txt, filing, typ, frm))
+        exp.setdefault((a, filing[0][1]), []).append((txt, b))
+        exp.setdefault((b, filing[1][1]), []).append((txt, a))
+    segs = list(g.segments)
+    if sorted(str(s.name) for s in segs) != sorted(nm.values()):
+        return ["segments-wrong: %r expected %r (%s)" % (sorted(str(s.name) for s in segs), sorted(nm.values()), ctx)]
+    for s in segs:
+        o = inv[str(s.name)]
+        for k in COLLS:
+            got = sorted(str(x) for x in getattr(s, k))
+            want = sorted(t for t, _ in exp.get((o, k), []))
+            if got != want:
+                F.append("collection-wrong: %s.%s has %r expected %r (%s)" % (s.name, k, got, want, ctx))
+    if F:
+        return F
+    # ---------------------------------------------------------------- answers which follow from the collections
+    for s in segs:
+        o = inv[str(s.name)]
+        for ask, label, ks in CONCAT:
+            got = sorted(str(x) for x in ask(s))
+            want = sorted(t for k in ks for t, _ in exp.get((o, k), []))
+            if got != want:
+                F.append("derived-collection-wrong: %s.%s has %r expected %r (%s)" % (s.name, label, got, want, ctx))
+        nL = set(nm[x] for _, x in exp.get((o, "dovetails_L"), []))
+        nR = set(nm[x] for _, x in exp.get((o, "dovetails_R"), []))
+        for ask, label, want in ((lambda: s.neighbours_L, "neighbours_L", nL), (lambda: s.neighbours_R, "neighbours_R", nR),
+                                 (lambda: s.neighbours_of_end("L"), "neighbours_of_end(L)", nL),
+                                 (lambda: s.neighbours_of_end("R"), "neighbours_of_end(R)", nR),
+                                 (lambda: s.neighbours, "neighbours", nL | nR),
+                                 (lambda: s.containers, "containers", set(nm[x] for _, x in exp.get((o, "edges_to_containers"), []))),
+                                 (lambda: s.contained, "contained", set(nm[x] for _, x in exp.get((o, "edges_to_contained"), [])))):
+            got = ask()
+            if not all(isinstance(x, gfapy.Line) and x.gfa is g for x in got) or set(str(x.name) for x in got) != want:
+                F.append("%s-wrong: %s.%s is %r expected %r (%s)" % (
+                    "neighbours" if label.startswith("neigh") else "containers", s.name, label,
+                    sorted(str(getattr(x, "name", x)) for x in got), sorted(want), ctx))
+        nl, nr = len(exp.get((o, "dovetails_L"), [])), len(exp.get((o, "dovetails_R"), []))
+        want = tuple("M" if n > 1 else n for n in (nl, nr))
+        r = lib.outcome(s._connectivity)
+        if r[0] != "ok" or tuple(r[1]) != want:
+            F.append("connectivity-wrong: %s has %r, the lines attach %d time(s) to its left and %d time(s) to its right "
+                     "end: expected %r (%s)" % (s.name, r[1], nl, nr, want, ctx))
+    # ---------------------------------------------------------------- per edge
+    by_text = {}
+    for l in g.lines:
+        if l.record_type in "LCEG":
+            by_text.setdefault(str(l), []).append(l)
+    want_dov = sorted(txt for e, txt, filing, typ, frm in info if typ == "L")
+    want_cont = sorted(txt for e, txt, filing, typ, frm in info if typ == "C")
+    if sorted(str(x) for x in g.dovetails) != want_dov:
+        F.append("gfa-dovetails-wrong: %r expected %r (%s)" % (sorted(str(x) for x in g.dovetails), want_dov, ctx))
+    if sorted(str(x) for x in g.containments) != want_cont:
+        F.append("gfa-containments-wrong: %r expected %r (%s)" % (sorted(str(x) for x in g.containments), want_cont, ctx))
+    for e, txt, filing, typ, frm in info:
+        if len(by_text.get(txt, [])) != 1:
+            F.append("edge-lines-wrong: %r is %d times in the Gfa (%s)" % (txt, len(by_text.get(txt, [])), ctx))
+            continue
+        ln = by_text[txt][0]
+        rt, a, o1, k1, b, o2, k2 = e["spec"]
+        if typ in "LCI":
+            flags = (ln.is_dovetail(), ln.is_containment(), ln.is_internal())
+            if flags != (typ == "L", typ == "C", typ == "I"):
+                F.append("type-wrong: %s classified %r expected %s (%s)" % (txt, flags, typ, ctx))
+        A = g.segment(nm[a]); B = g.segment(nm[b])
+        if typ == "L" and frm is not None:
+            fs, ts = (A, B) if frm else (B, A)
+            fo, to = (o1, o2) if frm else (o2, o1)
+            fe = gfapy.SegmentEnd(fs, "R" if fo == "+" else "L"); te = gfapy.SegmentEnd(ts, "L" if to == "+" else "R")
+            if not (ln.from_end == fe and ln.to_end == te):
+                F.append("link-ends-wrong: %s from_end %s to_end %s (%s)" % (txt, ln.from_end, ln.to_end, ctx))
+            elif fe != te and (ln.other_end(fe) != te or ln.other_end(te) != fe):
+                F.append("other-end-wrong: %s (%s)" % (txt, ctx))
+            elif fe == te and ln.other_end(fe) != fe:
+                F.append("other-end-wrong: %s (hairpin) (%s)" % (txt, ctx))
+            # the ends named by the edge are the ends it is filed on
+            ends_spec = sorted([(nm[filing[0][0]], filing[0][1][-1]), (nm[filing[1][0]], filing[1][1][-1])])
+            ends_lib = sorted([(str(ln.from_end.name), str(ln.from_end.end_type)), (str(ln.to_end.name), str(ln.to_end.end_type))])
+            if ends_spec != ends_lib:
+                F.append("link-ends-wrong: %s names the ends %r but is filed on %r (%s)" % (txt, ends_lib, ends_spec, ctx))
+        if typ == "C" and frm is not None:
+            cont, inner = (A, B) if frm else (B, A)
+            if ln.from_segment is not cont or ln.to_segment is not inner:
+                F.append("containers-wrong: %s: container %s contained %s (%s)" % (txt, ln.from_segment, ln.to_segment, ctx))
+        if typ != "G" and (ln.other(A) is not B or ln.other(B) is not A):
+            F.append("other-wrong: %s (%s)" % (txt, ctx))
+    return F
+
+
+def _set_fields(gfapy, ln, old_txt, new_txt, how):
+    """change the reference fields of the (disconnected) edge line so that it reads new_txt"""
+    fo, fn = old_txt.split("\t"), new_txt.split("\t")
+    rt = fn[0]
+    names = {"E": [None, None, "sid1", "sid2", "beg1", "end1", "beg2", "end2"],
+             "G": [None, None, "sid1", "sid2"],
+             "L": [None, "from_segment", "from_orient", "to_segment", "to_orient"],
+             "C": [None, "from_segment", "from_orient", "to_segment", "to_orient"]}[rt]
+    for i, fname in enumerate(names):
+        if fname is None or fo[i] == fn[i]:
+            continue
+        val = fn[i]
+        if how == "typed":
+            if fname.startswith("sid"):
+                val = gfapy.OrientedLine(val[:-1], val[-1])
+            elif fname[:3] in ("beg", "end"):
+                val = gfapy.LastPos(int(val[:-1])) if val.endswith("$") else int(val)
+        if how == "typed":
+            setattr(ln, fname, val)
+        else:
+            ln.set(fname, val)
+
+
 def oracle(case):
     gfapy = lib.import_gfapy()
     F = []
     try:
         g, edges, order = build(case)
     except gfapy.Error as e:
-        if case["kind"] == "multi":
+        if case["kind"] != "single":
             return F  # e.g. duplicate link in random multi graph: not this property's business
         return ["build-raises: %s %s" % (e.__class__.__name__, case)]
-    ren = {}
+    nm = {"A": "A", "B": "B", "C": "C"}
+    if case["kind"] == "single":
+        nm = {n: n for n in sorted({"A", case["second"]})}
     if case.get("rename"):
-        g.segment("A").name = "Z"; ren = {"A": "Z"}
-    exp = {}
-    for txt, filing, typ, frm, a, b, o1, o2 in edges:
-        for (s, k) in filing:
-            exp.setdefault((ren.get(s, s), k), []).append(txt.split("\t")[0:1] + [txt])
-    for s in g.segments:
-        for k in COLLS:
-            got = sorted(str(x) for x in getattr(s, k))
-            want = sorted(t[1].replace("\tA", "\t" + ren["A"]) if ren else t[1] for t in exp.get((s.name, k), []))
-            if got != want:
-                F.append("collection-wrong: %s.%s has %r expected %r (order %r)" % (s.name, k, got, want, list(order)))
-    if case["kind"] == "single" and not F:
-        txt, filing, typ, frm, a, b, o1, o2 = edges[0]
-        e = [l for l in g.lines if l.record_type == case["rt"]][0]
-        if typ in "LCI":
-            flags = (e.is_dovetail(), e.is_containment(), e.is_internal())
-            if flags != (typ == "L", typ == "C", typ == "I"):
-                F.append("type-wrong: %s classified %r expected %s" % (txt, flags, typ))
-        A = g.segment(ren.get(a, a)); B = g.segment(ren.get(b, b))
-        if typ == "L" and frm is not None:
-            fs, ts = (A, B) if frm else (B, A)
-            fo, to = (o1, o2) if frm else (o2, o1)
-            fe = gfapy.SegmentEnd(fs, "R" if fo == "+" else "L"); te = gfapy.SegmentEnd(ts, "L" if to == "+" else "R")
-            if not (e.from_end == fe and e.to_end == te):
-                F.append("link-ends-wrong: %s from_end %s to_end %s" % (txt, e.from_end, e.to_end))
-            elif fe != te and (e.other_end(fe) != te or e.other_end(te) != fe):
-                F.append("other-end-wrong: %s" % txt)
-            if B not in A.neighbours or A not in B.neighbours:
-                F.append("neighbours-wrong: %s" % txt)
-            kA = [k for (s, k) in filing if s == a][0]
-            if B not in getattr(A, "neighbours_" + kA[-1]):
-                F.append("neighbours-of-end-wrong: %s" % txt)
-        if typ == "C" and frm is not None:
-            cont, inner = (A, B) if frm else (B, A)
-            if inner not in cont.contained or cont not in inner.containers:
-                F.append("containers-wrong: %s: contained=%r containers=%r" % (txt, [x.name for x in cont.contained], [x.name for x in inner.containers]))
-        if typ != "G" and (e.other(A) is not B or e.other(B) is not A):
-            F.append("other-wrong: %s" % txt)
+        g.segment("A").name = "Z"; nm["A"] = "Z"
+    F = compare(g, edges, nm, "order %r" % (list(order),))
+    if F or case["kind"] != "edit":
+        return F
+    # ------------------------------------------------------------------ editing history
+    v2 = _version(case) == 2
+    fresh = list(FRESH)
+    done = []
+    for st in case["steps"]:
+        done.append(st)
+        ctx = "order %r, after steps %r" % (list(order), done)
+        try:
+            if st[0] in ("edit", "rm"):
+                if st[1] >= len(edges) or edges[st[1]] is None:
+                    continue
+                e = edges[st[1]]
+                old_txt = edge_line(*e["spec"], idx=e["idx"], nm=nm)[0]
+                cand = [l for l in g.lines if str(l) == old_txt]
+                if len(cand) != 1:
+                    return ["edge-lines-wrong: %r is %d times in the Gfa (%s)" % (old_txt, len(cand), ctx)]
+                ln = cand[0]
+                if st[2] == "rm":
+                    g.rm(ln)
+                else:
+                    ln.disconnect()
+                if st[0] == "rm":
+                    edges[st[1]] = None
+                else:
+                    off, on, how, new = st[2], st[3], st[4], st[5]
+                    spec = list(e["spec"])
+                    for key, j in (("a", 1), ("o1", 2), ("k1", 3), ("b", 4), ("o2", 5), ("k2", 6)):
+                        if key in new:
+                            spec[j] = new[key]
+                    new_txt = edge_line(*spec, idx=e["idx"], nm=nm)[0]
+                    if spec[0] in "LC" and any(x is not None and x is not e and x["spec"][0] == spec[0] and
+                                               edge_line(*x["spec"], idx=x["idx"], nm=nm)[0] == new_txt for x in edges):
+                        edges[st[1]] = None      # would be the same GFA1 line twice: leave the edge out
+                    else:
+                        if on == "fresh":
+                            g.add_line(new_txt)
+                        else:
+                            _set_fields(gfapy, ln, old_txt, new_txt, how)
+                            if str(ln) != new_txt:
+                                return ["edit-not-applied: the disconnected line reads %r after setting its fields for %r (%s)" % (
+                                    str(ln), new_txt, ctx)]
+                            if on == "add_line":
+                                g.add_line(ln)
+                            else:
+                                ln.connect(g)
+                        e["spec"] = spec
+            elif st[0] == "add":
+                spec = list(st[1])
+                if v2 and spec[0] in "LC":
+                    spec[0] = "E"
+                if not v2 and spec[0] in "EG":
+                    continue
+                idx = len(edges)
+                txt = edge_line(*spec, idx=idx, nm=nm)[0]
+                if spec[0] in "LC" and any(x is not None and edge_line(*x["spec"], idx=x["idx"], nm=nm)[0] == txt for x in edges):
+                    edges.append(None)
+                    continue
+                g.add_line(txt)
+                edges.append({"spec": spec, "idx": idx, "txt": txt})
+            elif st[0] == "rename":
+                if not fresh:
+                    continue
+                new = fresh.pop(0)
+                g.segment(nm[st[1]]).name = new
+                nm[st[1]] = new
+        except gfapy.Error:
+            return F      # a refused step: not this property's business
+        F = compare(g, [x for x in edges if x is not None], nm, ctx)
+        if F:
+            return F
     return F
 
 
